@@ -25,3 +25,104 @@ pub fn exec_ev(case: &[u64]) -> L {
     show_decode(&d, &mut o);
     o
 }
+
+// ---- DEC: kind + packet -> try_from_packet, and for accepted values the decode of their re-encoding ----
+use crate::layout::ref_encode;
+use ross_protocol::packet::Packet;
+
+fn emit_dec(cx: &mut Ctx, kind: u64, p: &Packet) {
+    let mut l = vec![kind];
+    show_packet(p, &mut l);
+    cx.emit(&l);
+}
+fn rand_packet(r: &mut Rng, kind: u64, len: usize) -> Packet {
+    let mut data = r.bytes(len);
+    if r.chance(3, 4) && len >= 2 { data[0] = 0; data[1] = kind as u8; }     // get past the code check most of the time
+    if r.chance(1, 3) { for b in data.iter_mut().skip(2) { if r.coin() { *b = r.below(7) as u8; } } }   // tag-like bytes
+    Packet { is_error: r.chance(1, 8), device_address: r.u16b() as u16, data }
+}
+pub fn gen_packets(r: &mut Rng, thorough: bool, f: &mut dyn FnMut(u64, &Packet)) {
+    let reps = if thorough { 40 } else { 3 };
+    // 1. every decoder x every payload length 0..=70
+    for kind in 0..16u64 { for len in 0..=70usize { for _ in 0..reps { let p = rand_packet(r, kind, len); f(kind, &p); } } }
+    // 2. valid encodings and their typed perturbations
+    let per_kind = if thorough { 400 } else { 25 };
+    for kind in 0..16u64 {
+        for n in 0..per_kind {
+            let e = gen_event(r, kind, if thorough { 600 } else { 80 });
+            let p = ref_encode(&e);
+            f(kind, &p);
+            { let mut q = p.clone(); q.is_error = true; f(kind, &q); }
+            for c in (0..=0x12u16).chain([0xffffu16, 0x0100 | kind as u16, (kind as u16) << 8].iter().cloned()) {
+                let mut q = p.clone(); q.data[0] = (c >> 8) as u8; q.data[1] = c as u8; f(kind, &q);
+            }
+            { let mut q = p.clone(); q.data.push(r.u8b() as u8); f(kind, &q); }
+            { let mut q = p.clone(); q.data.pop(); f(kind, &q); }
+            { let mut q = p.clone(); let k = r.below(q.data.len() as u64 + 1) as usize; q.data.truncate(k); f(kind, &q); }
+            { let k2 = r.below(16); f(k2, &p); }
+            { let mut q = p.clone(); if q.data.len() > 2 { let i = 2 + r.below(q.data.len() as u64 - 2) as usize; q.data[i] ^= 1 << r.below(8); } f(kind, &q); }
+            // variant tags and flag bytes: the whole byte range, once per few events
+            let sweep = n % 8 == 0;
+            let tagpos = match kind { 6 => Some(5usize), 13 => Some(9), 14 => Some(5), _ => None };
+            if let Some(tp) = tagpos {
+                if sweep { for t in 0..=255u8 { let mut q = p.clone(); q.data[tp] = t; f(kind, &q); } }
+                else { let mut q = p.clone(); q.data[tp] = r.below(9) as u8; f(kind, &q); }
+                if kind != 14 && p.data[tp] == 0 && sweep { for t in 0..=255u8 { let mut q = p.clone(); q.data[tp + 1] = t; f(kind, &q); } }
+            }
+            if kind == 12 {
+                let tags: [u32; 14] = [0, 1, 2, 3, 4, 5, 255, 256, 257, 0x0100_0003, 0xffff_ff03, 0x0001_0000, 0xffff_ffff, r.next() as u32];
+                for t in tags.iter() { let mut q = p.clone(); q.data[6..10].copy_from_slice(&t.to_le_bytes()); f(kind, &q); }
+                if sweep { for b in 0..=255u8 { let mut q = p.clone(); q.data[6..10].copy_from_slice(&3u32.to_le_bytes()); q.data[10] = b; f(kind, &q); } }
+                { let mut q = p.clone(); let i = 11 + r.below(3) as usize; q.data[i] = r.range(1, 255) as u8; f(kind, &q); }   // non-zero padding
+            }
+            if kind == 4 {
+                for dl in [0u16, 1, 0xffff, 0xfffa, 0xfffb, (p.data.len() as u16).wrapping_sub(5), (p.data.len() as u16).wrapping_sub(7)].iter() {
+                    let mut q = p.clone(); q.data[4] = (dl >> 8) as u8; q.data[5] = *dl as u8; f(kind, &q);
+                }
+            }
+        }
+    }
+    // data events whose declared length is near the u16 limit, with short and with full bodies
+    for dl in [0xfffau32, 0xfffb, 0xfffc, 0xfffd, 0xfffe, 0xffff].iter() {
+        let mut d = vec![0u8, 4, 0, 1, (dl >> 8) as u8, *dl as u8];
+        f(4, &Packet { is_error: false, device_address: 1, data: d.clone() });
+        if thorough { for extra in [-1i64, 0, 1].iter() { let n = (*dl as i64 + extra) as usize; d.truncate(6); d.extend(r.bytes(n)); f(4, &Packet { is_error: false, device_address: 2, data: d.clone() }); } }
+    }
+    if !thorough { let mut d = vec![0u8, 4, 0, 1, 0xff, 0xff]; d.extend(r.bytes(65535)); f(4, &Packet { is_error: false, device_address: 2, data: d.clone() }); d.push(0); f(4, &Packet { is_error: false, device_address: 2, data: d }); }
+    // 3. entirely random packets against random decoders
+    for _ in 0..(if thorough { 200000 } else { 8000 }) {
+        let len = if r.chance(1, 20) { r.below(300) as usize } else { r.below(20) as usize };
+        let kind = r.below(16);
+        let mut p = rand_packet(r, kind, len);
+        if r.coin() && len >= 2 { p.data[0] = 0; p.data[1] = r.below(20) as u8; }
+        f(r.below(16), &p);
+    }
+}
+pub fn gen_dec(r: &mut Rng, thorough: bool, cx: &mut Ctx) {
+    gen_packets(r, thorough, &mut |k, p| emit_dec(cx, k, p));
+}
+pub fn exec_dec(case: &[u64]) -> L {
+    let (p, _) = parse_packet(&case[1..]);
+    let mut o = vec![];
+    let d = decode(case[0], &p);
+    if show_decode(&d, &mut o) {
+        if let Ok(e) = d {
+            let p2 = e.to_packet();
+            let d2 = decode(case[0], &p2);
+            show_decode(&d2, &mut o);
+        }
+    }
+    o
+}
+
+// ---- AMB: packet (or event) -> which of the 16 decoders accept it ----
+pub fn gen_amb(r: &mut Rng, thorough: bool, cx: &mut Ctx) {
+    let mut n = 0u64;
+    gen_packets(r, false, &mut |_, p| { n += 1; if thorough || n % 3 == 0 { let mut l = vec![0]; show_packet(p, &mut l); cx.emit(&l); } });
+    let per_kind = if thorough { 20000 } else { 1200 };
+    for kind in 0..16u64 { for _ in 0..(if kind == 5 { 1 } else { per_kind }) { let mut l = vec![1]; l.extend(gen_event(r, kind, 40)); cx.emit(&l); } }
+}
+pub fn exec_amb(case: &[u64]) -> L {
+    let p = if case[0] == 0 { parse_packet(&case[1..]).0 } else { ev_of(&case[1..]).to_packet() };
+    (0..16u64).map(|k| match crate::guarded(|| decode(k, &p).is_ok()) { Some(true) => 1, Some(false) => 0, None => 2 }).collect()
+}
